@@ -174,6 +174,9 @@ def reference(methods):
             if [t.rust() for _, t in m.payload] != sig0:
                 valid = False
                 why.append("%s: payload signatures differ" % rid)
+            if m.raw != ms[0].raw:
+                valid = False
+                why.append("%s: one method takes the payload raw, another decodes it" % rid)
     return valid, groups, order, why
 
 
@@ -243,7 +246,7 @@ def mutate_invalid(rng, methods):
     """one rule-breaking (or near-rule) edit"""
     m = rng.choice(methods)
     kind = rng.choice(["dup_outcome", "always_plus", "payload_len", "payload_ty", "data_on_error", "data_second", "no_payload",
-                       "raw_plus", "inst_raw", "same_const"])
+                       "raw_plus", "inst_raw", "same_const", "raw_mismatch"])
     if kind == "dup_outcome":
         methods.append(RMethod(name=m.name + "_again", on=m.on, handlers=list(m.claims())[:1], payload=list(m.payload), raw=m.raw))
     elif kind == "always_plus":
@@ -280,6 +283,11 @@ def mutate_invalid(rng, methods):
         m2 = [x for x in methods if x.on == "success"]
         if m2:
             m2[0].data = ("instantiate", "raw")
+    elif kind == "raw_mismatch":
+        # same payload type, but only one of the merged methods marks it raw
+        methods.append(RMethod(name=m.name + "_o", on={"success": "error", "error": "success", "always": "error"}[m.on],
+                               handlers=list(m.claims())[:1], payload=[("pl", P("Binary"))], raw=not m.raw))
+        m.payload = [("pl", P("Binary"))]
     elif kind == "same_const":
         # handler names with the same constant image (handler1 / handler_1)
         methods.append(RMethod(name="clash", on=m.on, handlers=["handler_1"], payload=list(m.payload), raw=m.raw))
